@@ -138,6 +138,33 @@ def r1_copy_rest(L, repo):
     L.require("C10.R1", rel("data_if"), "DATAInterface.send_msg", "the legacy flag reaches gen_msg()", ["%s.gen_msg(%s)" % (ps[1], ps[2])], g)
 
 
+def r5_rejected_config(L, repo):
+    """R5 ("configured base / threshold"): the radio metadata a recipient reports is computed from the FAKE_TOA /
+    FAKE_RSSI / FAKE_CI settings, which are configured by ACCEPTED commands only: a command the transceiver answers
+    with a non-zero status - or whose number does not parse (ValueError, answered -1 by the control interface) - leaves
+    base and threshold as they were.  FakeTRX.ctrl_cmd_handler is folded (cmdfold) for every combination of the
+    argument witnesses {positive, negative, zero, non-numeric, empty} in the one- and two-argument forms."""
+    from cmdfold import fold_fake_cmd
+    import itertools
+    FF = rel("fake_trx")
+    fn = "FakeTRX.ctrl_cmd_handler"
+    L.fn(FF, fn)
+    wit = ["7", "-3", "0", "1O", ""]
+    n = 0
+    for verb in ("FAKE_TOA", "FAKE_RSSI", "FAKE_CI"):
+        for argc in (1, 2):
+            for args in itertools.product(wit, repeat=argc):
+                f = fold_fake_cmd(repo, [verb] + list(args))
+                rejected = f.raised is not None or (f.ret is not None and f.ret != 0 and not (isinstance(f.ret, tuple) and f.ret[0] == 0))
+                if not rejected:
+                    continue
+                n += 1
+                ch = {k: v for k, v in f.changed.items() if not k.startswith("self.ctrl_if.")}
+                L.ob("C10.R5", FF, fn, "CMD %s %s is rejected (%s): the simulated radio settings stay as configured" % (
+                    verb, " ".join(repr(a) for a in args), f.raised or "status %s" % (f.ret,)), {}, ch, not ch)
+    L.floor("C10.R5", "rejected FAKE_* configuration commands folded", n, 20)
+
+
 def inline_props(repo, ci, expr, selfname):
     """replace `<selfname>.<prop>` by the property body (single return) with self renamed"""
     import copy
@@ -607,3 +634,6 @@ def run(L, tier):
     L.stage(r1_copy, L, repo)
     L.stage(r2_formulas, L, repo)
     L.stage(r3_mod_tsc, L, repo)
+    L.stage(r5_rejected_config, L, repo)
+    from pyutil import memo_sound
+    L.stage(memo_sound, L, repo, "C10.R6", ("fake_trx", "transceiver", "rand_burst_gen"))
